@@ -236,6 +236,30 @@ def body(chk, db, cfgname):
                 partfn, ", ".join(sorted(w.split("::")[-1] for w in written)), syncfn, ", ".join(m.split("::")[-1] for m in missing), extra), cfgname)
 
     # ================================================================== R5
+    # objects that travel between ranks by value (boost::serialization): serialize() must transmit EVERY data member -- a member
+    # it leaves out is default-constructed (for the term structs: uninitialised) on the receiving rank
+    seen_ser = set()
+    for fs in sorted([x for x in db.fns.values() if strip_targs(x.name).split("::")[-1] == "serialize" and x.body is not None and x.body >= 0 and x.rec], key=lambda y: (y.rec, y.file, y.line)):
+        if fs.rec in seen_ser:
+            continue
+        seen_ser.add(fs.rec)
+        rec_ = db.records.get(fs.rec) or db.records.get(strip_targs(fs.rec))
+        if rec_ is None:
+            continue
+        sent = {n_["n"] for _, n_ in fs.walk(fs.body) if n_["k"] == "member" and fs.nodes[n_["base"]]["k"] == "this"}
+        for _, n_ in fs.walk(fs.body):
+            if n_["k"] == "call" and n_.get("ck") == "method" and n_.get("obj") is not None and fs.nodes[n_["obj"]]["k"] == "this":
+                cf_ = db.callee_fn(n_)
+                if cf_ is not None and cf_.body is not None and cf_.body >= 0:
+                    sent |= {m_["n"] for _, m_ in cf_.walk(cf_.body) if m_["k"] == "member" and cf_.nodes[m_["base"]]["k"] == "this"}
+        allf = [f_["n"] for f_ in rec_.get("fields", []) if not f_.get("static")]
+        site = "%s::serialize:every-member" % strip_targs(fs.rec)
+        miss = [f_ for f_ in allf if f_ not in sent]
+        if miss:
+            r4.bad(site, fs.loc(), "serialize() does not transmit the member(s) %s: on every rank that receives the object instead of computing it they are default-constructed / uninitialised, and the values computed from the object differ from rank to rank" % ", ".join(miss), cfgname)
+        else:
+            r4.ok(site, fs.loc(), "all %d data members are transmitted" % len(allf), cfgname)
+
     r5 = chk.rule("C06-R5", "the OpenMP parallel-for body writes only the slot of its own iteration and calls only side-effect-free const code", "F4 effects", 2)
     nomp = 0
     for f in fns:
